@@ -34,6 +34,10 @@ pub struct Case {
     pub no_clobber: bool,
     pub parblock: bool,
     pub workers: u8,
+    /// 0: the xcp binary; 1-3: a library client (probe) with the record / channel / noop updater - "the run fails"
+    /// then means copy() returns an error
+    #[serde(default)]
+    pub via_lib: u8,
 }
 
 fn node() -> BoxedStrategy<Node> {
@@ -49,8 +53,8 @@ fn node() -> BoxedStrategy<Node> {
 }
 
 pub fn strategy() -> BoxedStrategy<Case> {
-    (prop::collection::vec(node(), 1..4), any::<bool>(), 0u8..3, prop::bool::weighted(0.25), any::<bool>(), 1u8..6)
-        .prop_map(|(nodes, in_tree, umask, no_clobber, parblock, workers)| Case { nodes, in_tree, umask, no_clobber, parblock, workers })
+    (prop::collection::vec(node(), 1..4), any::<bool>(), 0u8..3, prop::bool::weighted(0.25), any::<bool>(), 1u8..6, prop_oneof![4 => Just(0u8), 1 => 1u8..4])
+        .prop_map(|(nodes, in_tree, umask, no_clobber, parblock, workers, via_lib)| Case { nodes, in_tree, umask, no_clobber, parblock, workers, via_lib })
         .boxed()
 }
 
@@ -122,11 +126,37 @@ pub fn judge(c: &Case, rec: &mut Rec) -> Verdict {
     let mut spec = sup_spec(&sb, args.clone(), vec![], Sched::free());
     spec.umask = umask_of(c);
     spec.timeout = std::time::Duration::from_secs(15);
+    let updater = ["", "record", "channel", "noop"][c.via_lib as usize % 4];
+    if !updater.is_empty() {
+        let cfg = json!({"driver": if c.parblock { "parblock" } else { "parfile" }, "sources": [if c.in_tree { "s" } else { "n0" }], "dest": "d", "workers": c.workers, "block_size": 1u64 << 20,
+            "updater": updater, "no_clobber": c.no_clobber, "drain_timeout_ms": 10000});
+        let inp = sb.out.join("stdin.json");
+        if std::fs::write(&inp, serde_json::to_vec(&cfg).unwrap()).is_err() {
+            return Verdict::Inconclusive("stdin".into());
+        }
+        spec.bin = std::path::PathBuf::from("/bin/sh");
+        spec.args = vec![b"-c".to_vec(), format!("exec {} copy < {}", crate::run::PROBE_BIN, inp.display()).into_bytes()];
+        spec.extra_roots = vec![pbytes(&sb.out)];
+        spec.timeout = std::time::Duration::from_secs(60);
+    }
     let out = Sup::run(spec);
     rec.eval(1);
     if out.setup_error.is_some() {
         return Verdict::Inconclusive(format!("supervisor {:?}", out.setup_error));
     }
+    // the verdict of the run: exit status of xcp, or what copy() returned to the library client
+    let run_ok = if updater.is_empty() {
+        out.ok()
+    } else {
+        let first = out.stdout.split(|b| *b == b'\n').next().unwrap_or(b"");
+        match serde_json::from_slice::<Value>(first) {
+            Ok(v) => match (v.get("ok").and_then(|x| x.as_bool()), v.get("returned").and_then(|x| x.as_bool())) {
+                (Some(ok), Some(true)) => ok,
+                _ => return Verdict::Inconclusive(format!("probe: {}", String::from_utf8_lossy(first).chars().take(200).collect::<String>())),
+            },
+            Err(e) => return Verdict::Inconclusive(format!("probe output: {e}")),
+        }
+    };
     let argv_s: Vec<String> = args.iter().map(|a| esc(a)).collect();
     let driver = if c.parblock { "parblock" } else { "parfile" };
     let n = pairs.len();
@@ -156,15 +186,18 @@ pub fn judge(c: &Case, rec: &mut Rec) -> Verdict {
         if c.in_tree { "tree" } else { "sole" },
         if collision { "existing-dest" } else { "fresh" },
         if c.no_clobber { "noclobber" } else { "clobber" },
-        if out.ok() { "0" } else { "!0" }
+        if run_ok { "0" } else { "!0" }
     );
     let new = rec.class(key);
+    if !updater.is_empty() {
+        rec.class(format!("library|{}|{}|block={}|ok={}", updater, driver, has_block, run_ok));
+    }
     if new {
-        rec.sample(json!({"argv": argv_s, "umask": format!("{:o}", umask_of(c)), "nodes": c.nodes.iter().take(n).map(|x| format!("{} {}:{} mode {:o} dest-state {}", kn(x.kind), x.major, x.minor, x.mode, x.dest % 5)).collect::<Vec<_>>(), "exit": out.code}));
+        rec.sample(json!({"argv": argv_s, "client": if updater.is_empty() { "xcp".to_string() } else { format!("libxcp client, {} updater", updater) }, "umask": format!("{:o}", umask_of(c)), "nodes": c.nodes.iter().take(n).map(|x| format!("{} {}:{} mode {:o} dest-state {}", kn(x.kind), x.major, x.minor, x.mode, x.dest % 5)).collect::<Vec<_>>(), "exit": out.code}));
     }
     if has_block {
         rec.nontrivial(case_hash(c));
-        if out.ok() {
+        if run_ok {
             return Verdict::faild(format!("C14|{}|block-device-accepted", driver), "a block device among the sources but exit 0".to_string(), json!({"argv": argv_s}));
         }
         return Verdict::Pass;
@@ -183,7 +216,7 @@ pub fn judge(c: &Case, rec: &mut Rec) -> Verdict {
             }
         }
         // (a dangling link is "existing" for the property; whether xcp notices is C08's finding class)
-        if collision && out.ok() {
+        if collision && run_ok {
             let only_dangling = c.nodes.iter().take(n).all(|x| matches!(x.dest % 5, 0 | 4));
             return Verdict::faild(
                 format!("C14|{}|noclobber-collision-exit0{}", driver, if only_dangling { "|dangling-link" } else { "" }),
@@ -192,7 +225,7 @@ pub fn judge(c: &Case, rec: &mut Rec) -> Verdict {
             );
         }
     }
-    if !out.ok() {
+    if !run_ok {
         rec.count("exit_nonzero", 1);
         // "replacing an existing entry unless no-clobber is set": without -n, an existing regular file,
         // fifo or valid symlink at the destination path must be replaced, not make the copy fail
@@ -252,7 +285,7 @@ impl Check for C14 {
         vec!["needs CAP_MKNOD (present: uid 0); device nodes are created but never opened".into()]
     }
     fn needs(&self) -> Needs {
-        Needs { xcp: true, probe: false, fallback: false }
+        Needs { xcp: true, probe: true, fallback: false }
     }
     fn run_shard(&self, ctx: &Ctx, rec: &mut Rec) {
         let total = match ctx.tier {
@@ -274,6 +307,6 @@ impl Check for C14 {
         }
     }
     fn required_classes(&self, _tier: Tier) -> Vec<String> {
-        ["fifo", "sock", "char", "block", "|tree|", "|sole|", "existing-dest", "noclobber", "umask0|", "umask77|"].iter().map(|s| s.to_string()).collect()
+        ["fifo", "sock", "char", "block", "|tree|", "|sole|", "existing-dest", "noclobber", "umask0|", "umask77|", "library|noop|parfile|block=true", "library|noop|parblock|block=true", "library|record|", "library|channel|"].iter().map(|s| s.to_string()).collect()
     }
 }
